@@ -686,4 +686,125 @@ theorem inttTableK_spec (P : PrimeSet) (k j : Nat) (g : LaneFwd P k) (gi : LaneI
   | err e => rw [hrec] at ht; cases ht
   | panic c => rw [hrec] at ht; cases ht
 
+/-! ### the table constructors succeed whenever the metadata twins do -/
+
+theorem fwdLevels_of_metas (q logQ omega n bsAfter : Nat) :
+    ∀ (fuel nn bs : Nat) (ms : List StepMeta) (b : Nat), fwdMetas q logQ bsAfter fuel nn bs = .ok (ms, b) →
+      ∃ ls, fwdLevels q logQ omega n bsAfter fuel nn bs = .ok (ls, b) := by
+  intro fuel
+  induction fuel with
+  | zero =>
+    intro nn bs ms b h
+    simp only [fwdMetas, Outcome.ok.injEq, Prod.mk.injEq] at h
+    exact ⟨[], by simp [fwdLevels, h.2]⟩
+  | succ f ih =>
+    intro nn bs ms b h
+    unfold fwdMetas at h
+    unfold fwdLevels
+    simp only [] at h ⊢
+    generalize (if (bs == 64) = true then bsAfter else bs) = bsx at h ⊢
+    by_cases h4 : nn ≥ 4
+    · rw [if_pos h4] at h ⊢
+      by_cases hnb : max (bsx + 1) ((bsx + 1 + 1) / 2 + logQ + 1) > 64
+      · rw [if_pos hnb] at h; cases h
+      · rw [if_neg hnb] at h ⊢
+        cases hrec : fwdMetas q logQ bsAfter f (nn / 2) (max (bsx + 1) ((bsx + 1 + 1) / 2 + logQ + 1)) with
+        | ok v =>
+          obtain ⟨ms', b'⟩ := v
+          rw [hrec] at h
+          simp only [Outcome.ok.injEq, Prod.mk.injEq] at h
+          obtain ⟨ls, hls⟩ := ih _ _ _ _ hrec
+          rw [hls]
+          exact ⟨_, by rw [h.2]⟩
+        | err e => rw [hrec] at h; cases h
+        | panic c => rw [hrec] at h; cases h
+    · rw [if_neg h4] at h ⊢
+      cases hrec : fwdMetas q logQ bsAfter f (nn / 2) (bsx + 1) with
+      | ok v =>
+        obtain ⟨ms', b'⟩ := v
+        rw [hrec] at h
+        simp only [Outcome.ok.injEq, Prod.mk.injEq] at h
+        obtain ⟨ls, hls⟩ := ih _ _ _ _ hrec
+        rw [hls]
+        exact ⟨_, by rw [h.2]⟩
+      | err e => rw [hrec] at h; cases h
+      | panic c => rw [hrec] at h; cases h
+
+theorem invLevels_of_metas (q logQ omega n bsAfter : Nat) :
+    ∀ (fuel nn bs : Nat) (ms : List StepMeta) (b : Nat), invMetas q logQ bsAfter fuel nn bs = .ok (ms, b) →
+      ∃ ls, invLevels q logQ omega n bsAfter fuel nn bs = .ok (ls, b) := by
+  intro fuel
+  induction fuel with
+  | zero =>
+    intro nn bs ms b h
+    simp only [invMetas, Outcome.ok.injEq, Prod.mk.injEq] at h
+    exact ⟨[], by simp [invLevels, h.2]⟩
+  | succ f ih =>
+    intro nn bs ms b h
+    unfold invMetas at h
+    unfold invLevels
+    simp only [] at h ⊢
+    generalize (if (bs == 64) = true then bsAfter else bs) = bsx at h ⊢
+    by_cases hnb : 1 + max bsx ((bsx + 1) / 2 + logQ + 1) > 64
+    · rw [if_pos hnb] at h; cases h
+    · rw [if_neg hnb] at h ⊢
+      cases hrec : invMetas q logQ bsAfter f (nn * 2) (1 + max bsx ((bsx + 1) / 2 + logQ + 1)) with
+      | ok v =>
+        obtain ⟨ms', b'⟩ := v
+        rw [hrec] at h
+        simp only [Outcome.ok.injEq, Prod.mk.injEq] at h
+        obtain ⟨ls, hls⟩ := ih _ _ _ _ hrec
+        rw [hls]
+        exact ⟨_, by rw [h.2]⟩
+      | err e => rw [hrec] at h; cases h
+      | panic c => rw [hrec] at h; cases h
+
+/-- `NttTable::new(2^j)` does not panic (its bit-size assertions hold), `1 ≤ j ≤ 16` -/
+theorem nttTableK_ok (P : PrimeSet) (k j : Nat) (g : LaneFwd P k) (hj1 : 1 ≤ j) (hj : j ≤ 16) :
+    ∃ t, nttTableK P k (2 ^ j) = .ok t := by
+  have hchk := g.fwd j hj1 hj
+  unfold fwdCheck at hchk
+  simp only [] at hchk
+  unfold nttTableK
+  have hle : (2 : Nat) ^ j ≤ 2 ^ 16 := Nat.pow_le_pow_right (by decide) hj
+  have hne1 : (2 : Nat) ^ j ≠ 1 := by
+    have : 2 ^ 1 ≤ 2 ^ j := Nat.pow_le_pow_right (by decide) hj1
+    omega
+  simp only [isPow2_two_pow, hle, decide_true, Bool.and_self, Bool.not_true, Bool.false_eq_true, if_false, hne1, Nat.log2_two_pow]
+  cases hm : fwdMetas (P.qs.getD k 1) P.logQ (reducOf P k).2 j (2 ^ j) (32 + P.logQ + 1) with
+  | ok v =>
+    obtain ⟨ms, b⟩ := v
+    obtain ⟨ls, hls⟩ := fwdLevels_of_metas (P.qs.getD k 1) P.logQ
+      (modqPow (P.omega.getD k 0) ((2 ^ 16 / 2 ^ j : Nat) : Int) (P.qs.getD k 1)) (2 ^ j) (reducOf P k).2 _ _ _ _ _ hm
+    rw [hls]
+    exact ⟨_, rfl⟩
+  | err e => rw [hm] at hchk; cases hchk
+  | panic c => rw [hm] at hchk; cases hchk
+
+/-- `NttTableInv::new(2^j)` does not panic, `1 ≤ j ≤ 16` -/
+theorem inttTableK_ok (P : PrimeSet) (k j : Nat) (gi : LaneInv P k) (hj1 : 1 ≤ j) (hj : j ≤ 16) :
+    ∃ t, inttTableK P k (2 ^ j) = .ok t := by
+  have hchk := gi.inv j hj1 hj
+  unfold invCheck at hchk
+  simp only [] at hchk
+  unfold inttTableK
+  have hle : (2 : Nat) ^ j ≤ 2 ^ 16 := Nat.pow_le_pow_right (by decide) hj
+  have hne1 : (2 : Nat) ^ j ≠ 1 := by
+    have : 2 ^ 1 ≤ 2 ^ j := Nat.pow_le_pow_right (by decide) hj1
+    omega
+  simp only [isPow2_two_pow, hle, decide_true, Bool.and_self, Bool.not_true, Bool.false_eq_true, if_false, hne1, Nat.log2_two_pow]
+  cases hm : invMetas (P.qs.getD k 1) P.logQ (reducOf P k).2 (j - 1) 4 ((reducOf P k).2 + 1) with
+  | ok v =>
+    obtain ⟨ms, b⟩ := v
+    obtain ⟨ls, hls⟩ := invLevels_of_metas (P.qs.getD k 1) P.logQ
+      (modqPow (P.omega.getD k 0) ((2 ^ 16 / 2 ^ j : Nat) : Int) (P.qs.getD k 1)) (2 ^ j) (reducOf P k).2 _ _ _ _ _ hm
+    rw [hls]
+    rw [hm] at hchk
+    simp only [Bool.and_eq_true, Bool.not_eq_true', decide_eq_false_iff_not] at hchk
+    simp only []
+    rw [if_neg hchk.1.1.1.1.1]
+    exact ⟨_, rfl⟩
+  | err e => rw [hm] at hchk; cases hchk
+  | panic c => rw [hm] at hchk; cases hchk
+
 end Ntt120
